@@ -44,6 +44,7 @@ type pathResult struct {
 	obligations int
 	discharged  int
 	concreteOK  int
+	domainDec   int
 	sites       map[string]int
 	unknowns    []string
 	witness     map[string]uint64
@@ -65,6 +66,7 @@ type HarnessResult struct {
 	Obligations    int                 `json:"obligations"`
 	Discharged     int                 `json:"discharged"`
 	ConcreteOK     int                 `json:"discharged_concretely"`
+	DomainDecisions int64              `json:"feasibility_decided_by_unary_domain"`
 	Sites          map[string]int      `json:"assert_sites_reached"`
 	SitesDeclared  []string            `json:"assert_sites_declared"`
 	SitesUnreached []string            `json:"assert_sites_unreached"`
@@ -145,6 +147,7 @@ func explore(env *Env, entry *ssa.Function, lim Limits) *HarnessResult {
 			res.Obligations += pr.obligations
 			res.Discharged += pr.discharged
 			res.ConcreteOK += pr.concreteOK
+			res.DomainDecisions += int64(pr.domainDec)
 			for s, n := range pr.sites {
 				res.Sites[s] += n
 			}
@@ -291,7 +294,7 @@ func runPath(in *interpreter, entry *ssa.Function, prefix []decision, solver *So
 	ps := &pathState{
 		tt: newTermTable(), solver: solver, prefix: prefix,
 		varSeq: map[string]int{}, maxInstrs: lim.MaxInstrs, maxDecisions: lim.MaxDecisions,
-		sitesHit: map[string]int{}, harness: entry.Name(), strVars: map[string][]*Term{},
+		sitesHit: map[string]int{}, harness: entry.Name(), strVars: map[string][]*Term{}, doms: map[*Term]*domain{},
 	}
 	in.beginPath(ps)
 	finish := func(status, reason string) {
@@ -300,6 +303,7 @@ func runPath(in *interpreter, entry *ssa.Function, prefix []decision, solver *So
 		pr.decisions = len(ps.trace)
 		pr.instrs = ps.instrs
 		pr.obligations, pr.discharged, pr.concreteOK = ps.obligations, ps.discharged, ps.concreteOK
+		pr.domainDec = ps.domainDecisions
 		pr.sites = ps.sitesHit
 		pr.unknowns = ps.unknowns
 		pr.trace = traceString(ps.trace)
